@@ -22,7 +22,7 @@ def explore(ctx):
                 'mixed base/integer variants and div with every base representation; mulScalar with every decimal string in [-3p,3p]; batchInverse on every array of length 1..6 over a 6-element alphabet. '
                 'w=4 (ring Z/241): boundary triples, and mul with one free coefficient per operand over all 256^2 values. native: all pairs of triples over a 12-value alphabet. '
                 'state = (op, operands); transition = one call; non-trivial = an operand with a non-canonical coefficient')
-    ctx.bounds = {'scaled_widths': [2, 4], 'native_coefficient_alphabet': 12, 'batchInverse_lengths': '1..6 exhaustive + 8,9,16,33,64'}
+    ctx.bounds = {'scaled_widths': [2, 4], 'native_coefficient_alphabet': '12 (thorough 28)', 'batchInverse_lengths': '1..6 exhaustive + 8,9,16,33,64'}
     ctx.assumptions = ['x^3-x-1 is irreducible over F_13 (checked: no root) so inverses exist at w=2; at w=4 (x=84 is a root mod 241) only ring identities are checked',
                        'oracle: schoolbook product reduced with x^3=x+1, x^4=x^2+x, __int128']
     for n in ('c09_native', 'c09_w2', 'c09_w4'):
